@@ -4,7 +4,8 @@
    Vocabulary (Models/Loader.v): a file tree [t : fstree] (None = template/page missing); [tnames t] the
    (name, file) pairs of its *.ast.json files (S); [compile_dir debug flt t] the loader (M);
    [reach debug ops t0 evs] the engine state after the schedule [evs] (any interleaving of steps of the
-   calls [ops i] and of replacements of the file tree) from a new engine over [t0]; [pcs s i = PDone r]:
+   calls [ops i] between yield points [EStep i], of steps from one compiled file to the next inside a
+   load [ECompile i], and of replacements of the file tree [EFs t]) from a new engine over [t0]; [pcs s i = PDone r]:
    call i has returned r.  All statements hold for every [ops : nat -> op] (any number of calls) and
    every schedule. *)
 From PV Require Import Base.Bytes Models.Loader Proofs.LoaderProofs.
@@ -78,11 +79,57 @@ Theorem C10_no_deadlock : forall debug ops t0 evs i,
 Proof. exact no_deadlock_reach. Qed.
 Print Assumptions C10_no_deadlock.
 
-(* every call returns after at most four of its own steps, whatever the schedule *)
-Theorem C10_calls_terminate : forall debug ops t0 evs i,
-  eff_steps debug ops (init t0) evs i <= 4.
+(* every call returns after at most four steps of its own plus one per template file of the load it
+   makes (N bounds the number of template files of every tree of the history), whatever the schedule *)
+Theorem C10_calls_terminate : forall debug ops t0 evs i N,
+  length (tnames t0) <= N -> trees_le N evs ->
+  eff_steps debug ops (init t0) evs i <= N + 4.
 Proof. exact steps_bounded_reach. Qed.
 Print Assumptions C10_calls_terminate.
+
+(* ---- a load is a long operation: the steps inside it *)
+
+(* while a call is inside a load - parked at "load:locked" or compiling any of its files - every other
+   call waits: its step is refused; only the flag test of a production render can still be passed, and
+   that render is then refused at the lookup.  In particular no call returns anything during a load *)
+Theorem C10_waits_for_load : forall debug ops t0 evs j i,
+  let s := reach debug ops t0 evs in
+  pcs s j = PLocked -> i <> j ->
+  step debug ops s i = None \/
+  (debug = false /\ pcs s i = PStart /\ (exists n, ops i = ORender n) /\
+   step debug ops s i = Some (set_pc s i PAfterLoad) /\
+   step debug ops (set_pc s i PAfterLoad) i = None).
+Proof. exact waits_for_load. Qed.
+Print Assumptions C10_waits_for_load.
+
+(* a compile step (the load goes on to its next file) changes nothing but the progress counter; the one
+   after the last file ends the load exactly like the plain step *)
+Theorem C10_compile_step : forall debug ops s i,
+  pcs s i = PLocked ->
+  let s' := apply_ev debug ops s (ECompile i) in
+  (prog s < load_calls debug (filter_of debug (ops i)) (fs s) ->
+     same_core s' s /\ prog s' = S (prog s)) /\
+  (load_calls debug (filter_of debug (ops i)) (fs s) <= prog s ->
+     s' = finish_load debug ops s i).
+Proof. exact compile_step_alone. Qed.
+Print Assumptions C10_compile_step.
+
+(* a load of a tree that compiles under the filter calls FuncProvider once per selected template file *)
+Theorem C10_load_calls : forall debug f t,
+  good_under debug f t = true ->
+  load_calls debug f t = length (filter (fun nk => prefixb f (fst nk)) (tnames t)).
+Proof. exact load_calls_good. Qed.
+Print Assumptions C10_load_calls.
+
+(* the yield-point granularity covers the compile steps: every schedule, compile steps included, reaches
+   the state (up to the progress counter) of a schedule without compile steps - each one dropped or, if it
+   ends the load, replaced by the plain step - so every theorem about reachable states below holds at every
+   moment of every load *)
+Theorem C10_compile_steps_refine : forall debug ops t0 evs,
+  let evs' := erase debug ops (init t0) evs in
+  Forall no_compile_ev evs' /\ same_core (reach debug ops t0 evs') (reach debug ops t0 evs).
+Proof. exact compile_erase_reach. Qed.
+Print Assumptions C10_compile_steps_refine.
 
 (* ---- production mode *)
 
